@@ -149,7 +149,7 @@ class Dispatcher:
             raise Unsupported("native set method with symbolic argument")
         if isinstance(recv, _IntShadow):
             return getattr(recv, name)(*args, **kwargs)
-        if recv is bytes and name == "fromhex":
+        if (recv is _b.bytes or recv is sym_bytes) and name == "fromhex":
             from .stubs import s_unhexlify
 
             if _any_sym(args):
@@ -157,6 +157,9 @@ class Dispatcher:
                 if a.kind != "str":
                     raise TypeError("fromhex() argument must be str")
                 return s_unhexlify(a)
+            return _b.bytes.fromhex(*args)
+        if recv is sym_str or recv is sym_bytes or recv is sym_set or recv is sym_float:
+            return self.callm(_UNSHADOW[recv], name, args, kwargs)
         f = getattr(recv, name)
         if isinstance(recv, _types.ModuleType):
             f = self.subst(f)
